@@ -139,7 +139,7 @@ def run_case(R, level, op, db, args, label="gen"):
     keys = sorted(db)
     w = World(level, db)
     w.prime()
-    w.seam.budget = 6
+    w.seam.budget = 6 if not args.get("prelude") else 400
     c = w.client
     case = _case(level, op, db, args=args)
     R.mon["ops_" + op] += 1
@@ -381,6 +381,26 @@ def run_case(R, level, op, db, args, label="gen"):
                 return out
 
             hook.applied = False
+            # history: earlier, perfectly normal use of the same client (incl. a lenient
+            # walk) must not change how the faulty response is treated afterwards
+            for pre in args.get("prelude", ()):
+                try:
+                    if pre == "walk-warn":
+                        rig.drive_agen(c.walk(OID((1, 3, 6, 1, 2, 1)), errors="warn"), limit=200)
+                    elif pre == "walk":
+                        rig.drive_agen(c.walk(OID((1, 3, 6, 1, 2, 1))), limit=200)
+                    elif pre == "bulkwalk":
+                        rig.drive_agen(c.bulkwalk([OID((1, 3, 6, 1, 2, 1))], bulk_size=5), limit=200)
+                    elif pre == "get-missing":
+                        drive(c.get(OID((1, 3, 6, 1, 77, 1, 0))))
+                    elif pre == "multiget":
+                        drive(c.multiget([OID(o) for o in oids]))
+                except rig.BudgetExceeded:
+                    raise
+                except Exception:  # noqa: BLE001 - e.g. NoSuchOID from get-missing
+                    pass
+                R.mon["prelude_" + pre] += 1
+            w.seam.reset(budget=6)
             w.agent.pdu_hook = hook
             if sub == "get":
                 res = rig.outcome(lambda: drive(c.get(OID(oids[0]))))
@@ -394,7 +414,7 @@ def run_case(R, level, op, db, args, label="gen"):
                 res = rig.outcome(lambda: drive(c.set(OID(oids[0]), rig.from_tuple(("int", 7)))))
             else:
                 res = rig.outcome(lambda: drive(c.multiset({OID(o): rig.from_tuple(("int", i)) for i, o in enumerate(oids)})))
-            fp = ("c04", op, level, sub, fault, len(oids), args["pos"] % 9)
+            fp = ("c04", op, level, sub, fault, len(oids), args["pos"] % 9, tuple(args.get("prelude", ())))
             R.case(fp, hook.applied, sample=case if R.evaluations % 401 == 0 else None)
             if not hook.applied:
                 R.mon["countfault_not_applicable"] += 1
@@ -491,7 +511,10 @@ def gen_args(rng, op, db, level):
             if sub in ("set", "multiset") and o in oids:
                 continue
             oids.append(o)
-        return {"sub": sub, "fault": rng.choice(("add", "drop")), "oids": oids, "pos": rng.randint(0, 8)}
+        prelude = rng.sample(("walk-warn", "walk", "bulkwalk", "get-missing", "multiget"), rng.choice((0, 0, 1, 2)))
+        if v1:
+            prelude = [x for x in prelude if x != "bulkwalk"]
+        return {"sub": sub, "fault": rng.choice(("add", "drop")), "oids": oids, "pos": rng.randint(0, 8), "prelude": prelude}
     if op == "bulkfault":
         return {
             "scalars": pick_oids(rng, db, rng.randint(0, 2), allow_end=False),
